@@ -1,11 +1,12 @@
 import Stbem.Props.SL
 import Stbem.Props.Formulas
 import Stbem.Props.C15
+import Stbem.Props.C04Sign
 
 /-!
 # C04 — Causality: Volterra structure and sign
 
-acausal ⇒ the literal 0 on every path (guard of bilform, and independently the generated kernels sl_dtk / fint_k / stik_k / sl_tik / steval_k vanish for every choice of special functions), matrix = table of single calls with rows = test, hence block lower triangular; the four-term kernel is built from a primitive F with F' = g, g' = -G (so that, G ≥ 0, the exact entry is a non-negative double integral). Positivity in binary64 is search-only.
+acausal ⇒ the literal 0 on every path (guard of bilform, and independently the generated kernels sl_dtk / fint_k / stik_k / sl_tik / steval_k vanish for every choice of special functions), matrix = table of single calls with rows = test, hence block lower triangular; the four-term kernel is built from a primitive F with F' = g, g' = -G (so that, G ≥ 0, the exact entry is a non-negative double integral). The sign part is proved in `Stbem.Props.C04Sign`: with the laws `exp = Real.exp`, `Ei' x = eˣ/x` (x<0), `Ei → 0` at `-∞`, `fpiInv > 0` the generated terms `sl_tik`, `sl_dtk` (guards included) are the single / double time integral of the causal heat kernel (`tik_eq_integral`, `dtk_eq_integral`), `≥ 0`, and `> 0` iff the observation time / test interval ends later than the trial interval begins; the quadrature sums of the model (`bilform` quadrature path, `evaluate`, `potential`) are `≥ 0` for rules with weights `≥ 0` and interior nodes, over `ℚ` for every record with non-negative kernels and over `ℝ` with the true functions (there `> 0` for causal pairs). Positivity in binary64 and the sign of the closed-form (`pw_exact`, `erf`) path are search-only.
 
 The theorems are proved in `Stbem.Props.SL` (model `Stbem.Model.SingleLayer`, tied to `src/single_layer.py` by exact
 execution of the real code), `Stbem.Props.Formulas` (terms regenerated from the Python source on every run) and
@@ -41,5 +42,40 @@ alias Fp_deriv := Stbem.Formulas.R.Fp_deriv
 alias ei_deriv := Stbem.Formulas.R.ei_deriv
 alias g_deriv := Stbem.Formulas.R.g_deriv
 alias f_deriv := Stbem.Formulas.R.f_deriv
+
+alias ei_neg := Stbem.C04Sign.ei_neg
+alias ei_strictAnti := Stbem.C04Sign.ei_strictAnti
+alias tik_nonneg := Stbem.C04Sign.tik_nonneg
+alias tik_pos := Stbem.C04Sign.tik_pos
+alias tik_pos_iff := Stbem.C04Sign.tik_pos_iff
+alias dtk_nonneg := Stbem.C04Sign.dtk_nonneg
+alias dtk_pos := Stbem.C04Sign.dtk_pos
+alias dtk_pos_iff := Stbem.C04Sign.dtk_pos_iff
+alias tik_eq_integral := Stbem.C04Sign.tik_eq_integral
+alias dtk_eq_integral_tik := Stbem.C04Sign.dtk_eq_integral_tik
+alias dtk_eq_integral := Stbem.C04Sign.dtk_eq_integral
+alias F_ext_hasDerivAt := Stbem.C04Sign.F_ext_hasDerivAt
+alias g_ext_hasDerivAt := Stbem.C04Sign.g_ext_hasDerivAt
+alias mirror1_pos := Stbem.C04Sign.mirror1_pos
+alias product2_pos := Stbem.C04Sign.product2_pos
+alias duffy2_pos := Stbem.C04Sign.duffy2_pos
+alias mirror2_pos := Stbem.C04Sign.mirror2_pos
+alias panel_rules_pos := Stbem.C04Sign.panel_rules_pos
+alias panel_nodes_interior_offdiag := Stbem.C04Sign.panel_nodes_interior_offdiag
+alias bilform_quad_nonneg := Stbem.C04Sign.bilform_quad_nonneg
+alias bilform_quad_nonneg_all := Stbem.C04Sign.bilform_quad_nonneg_all
+alias evaluate_nonneg := Stbem.C04Sign.evaluate_nonneg
+alias potential_nonneg := Stbem.C04Sign.potential_nonneg
+alias kernels_cast := Stbem.C04Sign.kernels_cast
+alias bilformQuadR_is_model := Stbem.C04Sign.bilformQuadR_is_model
+alias bilformQuadR_succeeds_iff := Stbem.C04Sign.bilformQuadR_succeeds_iff
+alias evaluateR_is_model := Stbem.C04Sign.evaluateR_is_model
+alias potentialR_is_model := Stbem.C04Sign.potentialR_is_model
+alias bilform_quad_real_nonneg := Stbem.C04Sign.bilform_quad_real_nonneg
+alias bilform_quad_real_pos := Stbem.C04Sign.bilform_quad_real_pos
+alias evaluate_real_nonneg := Stbem.C04Sign.evaluate_real_nonneg
+alias evaluate_real_pos := Stbem.C04Sign.evaluate_real_pos
+alias potential_real_nonneg := Stbem.C04Sign.potential_real_nonneg
+alias potential_real_pos := Stbem.C04Sign.potential_real_pos
 
 end Stbem.C04
